@@ -681,6 +681,8 @@ func MkEntry(k int, payload []byte) *entry.Entry {
 //	3 "b" naming a's id, the id re-signed with b's key, a's voucher copied
 //	4 a copy of a's identity block, the entry signed with b's key
 //	5 a's block with the signatures stripped
+//	6 "b" naming a's id, a's id signature copied, b's own voucher
+//	7 "b" naming a's id, both of a's signatures copied
 //
 // It returns the entry, the id it claims and whether the claim is genuine.
 func AuthorEntry(kind int) (e *entry.Entry, claimedID string, genuine bool) {
@@ -698,10 +700,16 @@ func AuthorEntry(kind int) (e *entry.Entry, claimedID string, genuine bool) {
 		return &entry.Entry{Identity: &idp.Identity{ID: a.ID, PublicKey: b.PublicKey, Signatures: sigs, Type: "orbitdb"}, Key: b.PublicKey}, a.ID, false
 	case 4:
 		return &entry.Entry{Identity: a.Filtered(), Key: b.PublicKey}, a.ID, false
+	case 6:
+		sigs := &idp.IdentitySignature{ID: a.Signatures.ID, PublicKey: b.Signatures.PublicKey}
+		return &entry.Entry{Identity: &idp.Identity{ID: a.ID, PublicKey: b.PublicKey, Signatures: sigs, Type: "orbitdb"}, Key: b.PublicKey}, a.ID, false
+	case 7:
+		sigs := &idp.IdentitySignature{ID: a.Signatures.ID, PublicKey: a.Signatures.PublicKey}
+		return &entry.Entry{Identity: &idp.Identity{ID: a.ID, PublicKey: b.PublicKey, Signatures: sigs, Type: "orbitdb"}, Key: b.PublicKey}, a.ID, false
 	default:
 		return &entry.Entry{Identity: &idp.Identity{ID: a.ID, PublicKey: a.PublicKey, Type: "orbitdb"}, Key: a.PublicKey}, a.ID, false
 	}
 }
 
 // AuthorKinds is the number of cases of AuthorEntry.
-const AuthorKinds = 6
+const AuthorKinds = 8
